@@ -786,8 +786,27 @@ func boundsOneBody(c *core.Ctx, bf *boundsFn, all []*boundsFn, tabledSeen map[st
 			if u.Info()&types.IsString == 0 {
 				continue
 			}
+		case *types.Array:
+			// constant indices are checked by the compiler; an index that ranges over ANOTHER sequence is not
+			if id, ok := ast.Unparen(ie.Index).(*ast.Ident); ok {
+				if rs := rangeDefining(info, parent, ie, id); rs != nil {
+					yp, xp := accessPath(info, rs.X), accessPath(info, ie.X)
+					if yp == "" || yp != xp {
+						total++
+						inScope++
+						construct := fmt.Sprintf("%s: %s", bf.name, types.ExprString(ie))
+						facts := a.factsAt(ie)
+						if iv := accessPath(info, id); xp != "" && iv != "" && facts.slack[[2]string{iv, xp}] >= 1 {
+							c.Ob(construct, ie.Pos(), true, "dominated by a guard proving i < len(array)")
+						} else {
+							c.Fail(construct, ie.Pos(), fmt.Sprintf("index ranges over another sequence (%s) but the indexed array has %d elements and no dominating guard bounds that sequence's length: index out of range when it is longer", types.ExprString(rs.X), u.Len()))
+						}
+					}
+				}
+			}
+			continue
 		default:
-			continue // arrays: constant indices are checked by the compiler; maps: no bounds
+			continue // maps: no bounds
 		}
 		total++
 		xp := accessPath(info, ie.X)
